@@ -2,22 +2,26 @@ CFG = dict(
     id="C16", props="Props/C16.v", harness="c16", shims=["c2--c16.go"], tags="verif,tiny",
     harness_timeout=2400,
     trusted_base=[
-        "Go channel / mutex / sync.atomic semantics (close of a closed channel and send on a closed channel panic; a closed channel never blocks a receiver)",
-        "the cut of Session.Close/close/listen/shutdown, receiveSingle(SvShutdown), Server.listen/shutdown/Close/Remove, Listener.listen/Close, "
-        "eventer.listen into atomic steps (one atomic op on the state word, one critical section of Session.lock, one channel operation per step)",
-        "state.Set/Unset are atomic read-modify-write operations (property C13)",
-        "runtime.Stack / runtime.NumGoroutine as the goroutine monitor; TCP loopback",
+        "Go channel / mutex / sync.atomic semantics (close of a closed or nil channel and send on a closed channel panic; a closed channel never blocks a receiver; recover() turns the panic of the running function into a return)",
+        "the cut of Session.Close/close/listen/shutdown/Wake/queue, receiveSingle(SvShutdown), Server.listen/shutdown/Close/Remove, Listener.listen/Close, "
+        "eventer.listen into atomic steps (one atomic op on the state word, one critical section of Session.lock taken as one step, one channel operation per step)",
+        "state.Set/Unset are atomic read-modify-write operations (property C13, repaired in /repo by 1c00120)",
+        "runtime.Stack / runtime.NumGoroutine as the goroutine monitor; the `closed` word of runtime.hchan read through unsafe (layout self-tested at start-up); TCP loopback",
     ],
     assumptions=[
-        "fairness: the client's listen goroutine and the handler goroutines are scheduled (stated as 'thread i occurs at least k times in the schedule')",
-        "reachable peer = the client can connect to the listener and performs one more exchange on its own (finite sleep); socket reads return (reply, error or deadline)",
-        "one listen goroutine and one eventer goroutine per client session, one loop per server and listener (ghost once-flags in the model)",
-        "migration (stateMoving), proxies and Listener.Replace are not modelled",
+        "fairness for close_returns: the goroutine the waiting call depends on is scheduled (stated as: thread 0 = client listen goroutine occurs 16 times / thread 3 = listener goroutine occurs 5 times in the continuation)",
+        "reachable peer = the client can connect to the listener (reach && socket open) and performs one more exchange on its own (callsback: finite sleep); a server-side Close towards a client that never calls back stays pending (the property's 'reachable peer')",
+        "one listen goroutine and one eventer goroutine per client session, one loop per server and listener, listener already registered with a running server loop (world0); Close racing Listen itself is covered by the oracle only",
+        "migration (stateMoving), proxies, Listener.Replace, user Shutdown callbacks, work hours / kill date timers are not modelled",
+        "Server.Close's wait (<-s.ch) and the wait for Session.lock are not proved to end (no theorem; the oracle watches them)",
     ],
-    level_text="Theorems over the Gallina interleaving model of the close paths (c2/session.go, vars.go, server.go, listener.go, types.go) for ALL schedules and ANY "
-               "number of concurrent close calls: no channel is closed twice, closed is final, close returns / waiters are released under the stated fairness, "
-               "the peer is notified, the server forgets the session; the two defects found (double close of s.ch, spinning eventer goroutine) are kept as refuted "
-               "lemmas against the old step list. The model is tied to /repo by real teardown scenarios over TCP loopback whose abstract trace is compared with the model.",
+    level_text="Eighteen theorems over the Gallina interleaving model of the close paths (c2/session.go, vars.go, server.go, listener.go, types.go) for ALL schedules, ANY "
+               "number of concurrent close calls and all protocol-state flags, by induction on the schedule with a counting invariant: no channel is closed twice or while nil and no send hits a closed "
+               "session channel (the one fault left, Server.Remove racing Server.shutdown, is stated and witnessed); closed is final; Session.Close and Listener.Close return under the stated fairness; "
+               "the closing client's last transmission carries SvShutdown, a server-side close queues it and its receipt closes the client; the server forgets the session. The five defects found and repaired "
+               "(double close of s.ch, spinning eventer, send on closed send/wake, notice dropped on a context cancel, Close racing the server start) are kept as refuted lemmas against the old step list "
+               "(the fifth only as a seeded regression). The model is tied to /repo by ~110 real teardown scenarios over TCP loopback whose abstract trace is compared with the model, and by racing groups "
+               "through the real receiveSingle.",
     level_note="Proof is about the model; the tie to the code is differential over sampled real schedules. No axioms.",
-    partial="goroutine scheduling, timers and sockets are only sampled; the theorems cover every interleaving of the modelled atomic steps",
+    partial="goroutine scheduling, timers and sockets are only sampled by the harness; the theorems cover every interleaving of the modelled atomic steps; the waits of Server.Close and of Session.lock have no termination theorem",
 )
